@@ -199,6 +199,13 @@ class Models(object):
 
             conv = ConvolvedFluxes.read(filename)
 
+            # The files may have been made at different times, with the models
+            # listed in a different order
+            if ifilt == 0:
+                model_names = conv.model_names
+            elif not np.array_equal(conv.model_names, model_names):
+                conv.sort_to_match(model_names)
+
             if ifilt == 0:
                 if m.n_distances is None:
                     model_fluxes = np.zeros((conv.n_models, len(filters))) * u.mJy
